@@ -376,6 +376,8 @@ def normalise(fn, world=None, modname=None, cls=None, primitives=(),
             if world is not None and modname is not None:
                 dinfo["modconsts"] = _un.fold_module_constants(
                     fn2, world, modname)
+            if hasattr(cls, "lookup"):
+                dinfo["clsconsts"] = _un.fold_class_constants(fn2, cls)
         finally:
             _un.TABLE_RESOLVER[0] = saved_tr
         if any(dinfo.values()):
